@@ -426,6 +426,9 @@ def failed_decls(build_out):
 # ----------------------------------------------------------------------------------------
 # generic "run harness jobs -> driver -> classify" check
 
+JOB_TIMEOUT = 14400
+
+
 def run_jobs(jobs, seed, stdin_by_job=None):
     """jobs: list of (bin, args). Run all in parallel; return (lines, per_job_counts, failures)."""
     env = dict(os.environ, VERIF_SEED=str(seed))
@@ -439,8 +442,15 @@ def run_jobs(jobs, seed, stdin_by_job=None):
     # drain every job's pipes concurrently (a job whose stdout/stderr pipe is full would otherwise sit blocked until the
     # jobs in front of it have finished, and the jobs would in effect run one after the other)
     from concurrent.futures import ThreadPoolExecutor
+    def drain(t):
+        try:
+            return t[2].communicate(t[3], timeout=JOB_TIMEOUT)
+        except subprocess.TimeoutExpired:
+            t[2].kill()
+            o, e = t[2].communicate()
+            return o, e + f"\n[harness job killed: no result within {JOB_TIMEOUT} s (hang); panicked or blocked while executing a generated case]\n".encode()
     with ThreadPoolExecutor(max_workers=max(1, len(procs))) as ex:
-        outs = list(ex.map(lambda t: t[2].communicate(t[3]), procs))
+        outs = list(ex.map(drain, procs))
     for (b, args, p, inp), (o, e) in zip(procs, outs):
         out = o.decode("utf-8", "replace").splitlines()
         lines += out
@@ -566,7 +576,8 @@ def simple_check(ctx, jobs, rule, nontrivial, describe=None, known_filter=None, 
         if hb_ok and failures and any(crashed(f) for f in failures):
             # the real code died (panic, abort, signal) on a generated case: that case is the failing input
             key, err = [f for f in failures if crashed(f)][0]
-            msg = [l for l in err.splitlines() if "panicked" in l or "overflow" in l or "abort" in l.lower() or "signal" in l]
+            msg = [l for l in err.splitlines() if "harness job killed" in l] or \
+                  [l for l in err.splitlines() if "panicked" in l or "overflow" in l or "abort" in l.lower() or "signal" in l]
             rep = dict(kind="crash-in-implementation", harness_job=key, history_so_far=[l for l in err.splitlines() if l.startswith("EV") or l.startswith("HIST")],
                        stderr_tail=err[-2500:], replay_cmd=f"VERIF_SEED={ctx.seed} harness/target/release/" + (getattr(err, "cmd", "") or key))
             if getattr(err, "last_case", None):
@@ -574,7 +585,8 @@ def simple_check(ctx, jobs, rule, nontrivial, describe=None, known_filter=None, 
                 rep["case"] = describe(err.last_case) if describe else err.last_case[:2000]
             if not st["ok"]:
                 rep["proof"] = st["detail"][-800:]
-            violation(ctx, f"the real code crashed while the harness executed a generated case ({(msg or ['process died'])[0][:200]})", rep)
+            what = "the real code did not finish a generated case (hang)" if msg and "harness job killed" in msg[0] else "the real code crashed while the harness executed a generated case"
+            violation(ctx, f"{what} ({(msg or ['process died'])[0][:200]})", rep)
         elif not st["ok"]:
             violation(ctx, f"{pid} proof obligations no longer check: " + st["detail"].strip()[:300],
                       dict(kind="proof-broken", detail=st["detail"], failed=st.get("failed_decls", []),
